@@ -109,6 +109,8 @@ pub fn weights(p: Prop) -> [u8; NOPS] {
         Prop::C11 => [10, 3, 3, 1, 0, 0, 0, 0, 0, 7, 3, 2, 0, 1, 0, 0, 24, 1, 0, 0, 0, 0, 0, 0, 0, 0],
         Prop::C12 => [14, 10, 10, 1, 0, 3, 0, 0, 0, 5, 4, 1, 0, 1, 3, 3, 10, 1, 6, 0, 0, 0, 0, 0, 0, 4],
         Prop::C13 => [12, 3, 3, 0, 1, 0, 0, 0, 0, 7, 3, 2, 0, 0, 0, 0, 1, 0, 0, 16, 3, 0, 0, 0, 0, 0],
+        //                 ins kv  chk get gmu gkv con idx imu rem ren ret clr drn wlk cns ent cln unc dis dsw ovf fmt eq  cap fri
+        Prop::C14 => [10, 3, 3, 0, 3, 0, 0, 0, 1, 7, 3, 2, 0, 1, 0, 0, 1, 8, 0, 0, 0, 0, 0, 14, 0, 3],
         Prop::C15 => [10, 4, 3, 2, 2, 1, 0, 0, 1, 6, 3, 3, 1, 2, 1, 2, 3, 12, 0, 0, 0, 0, 0, 3, 0, 0],
         Prop::C16 => [6, 2, 2, 1, 0, 1, 0, 0, 0, 3, 1, 1, 0, 0, 0, 0, 0, 0, 0, 0, 0, 0, 0, 0, 0, 22],
         Prop::C17 => [10, 4, 4, 2, 2, 2, 2, 2, 2, 6, 4, 4, 1, 2, 2, 2, 8, 2, 0, 8, 0, 0, 0, 3, 0, 3],
@@ -167,7 +169,7 @@ pub fn addr<T>(r: &T) -> usize {
 
 impl<'c, KD: Kind, const N: usize> MapEng<'c, KD, N> {
     pub fn new(cx: &'c mut Ctx, case: &Case) -> Self {
-        let mut univ = case.univ.max(1).min(24);
+        let mut univ = case.univ.max(1).min(if N > 17 { 96 } else { 24 });
         if univ > KD::MAX_UNIV {
             univ = KD::MAX_UNIV;
         }
@@ -519,6 +521,69 @@ impl<'c, KD: Kind, const N: usize> MapEng<'c, KD, N> {
         self.cx.chk(p18, ra == rb, "unchecked-vs-safe-return", || format!("return value summaries differ: safe {ra:#x}, unchecked {rb:#x}"));
     }
 
+    /// Insert `target` distinct keys (a generated permutation of the universe) straight through
+    /// `insert`, then run the standing checks once.
+    pub fn prefill(&mut self, sel: u8, mode: u8) {
+        let u = self.univ as usize;
+        let target = match sel % 4 {
+            0 => N,
+            1 => N - 1,
+            2 => N.saturating_sub(2 + (mode as usize % 6)),
+            _ => scale(mode, N + 1),
+        }
+        .min(u);
+        let gcd = |mut a: usize, mut b: usize| {
+            while b != 0 {
+                let t = a % b;
+                a = b;
+                b = t;
+            }
+            a
+        };
+        let mut stride = 1 + (mode as usize % 11);
+        while gcd(stride, u) != 1 {
+            stride += 1;
+        }
+        let off = (mode as usize >> 2) % u;
+        self.cx.cur_op = "insert";
+        self.cur_target = 0;
+        {
+            let slot = self.slots[0].as_mut().unwrap();
+            for i in 0..target {
+                let k = ((i * stride + off) % u) as u8;
+                let v = KD::vnorm(0x00F0_0000 | i as u32);
+                let key = KD::key(k);
+                let kid = KD::kid(&key);
+                let val = KD::val(v);
+                let vid = KD::vid(&val);
+                let m = &mut slot.c.m;
+                let r = tl::lib(move || m.insert(key, val).is_none());
+                if r == Ok(true) {
+                    slot.model.insert(k, Ent { kid, vid, val: v });
+                } else if r == Err(Pk::Injected) {
+                    self.faulted = true;
+                    self.ever_faulted = true;
+                    break;
+                }
+            }
+            if slot.model.len() == N {
+                self.cx.bump(S::reached_full);
+            }
+            self.cx.add(S::prefilled, slot.model.len() as u64);
+        }
+        self.after(P01, P12);
+        for w in 1..2 {
+            if self.lockstep {
+                // the lockstep twin gets the same contents
+                let keys: Vec<(u8, u32)> = self.slots[0].as_ref().unwrap().order.iter().map(|k| (*k, self.slots[0].as_ref().unwrap().model[k].val)).collect();
+                for (k, v) in keys {
+                    self.op_insert_k(w, OP_INSERT, k, v);
+                }
+            }
+        }
+        self.last_ret = [0; 2];
+    }
+
     /// Drop everything and settle the ledger.
     pub fn finish(mut self) {
         self.cx.cur_op = "final-drop";
@@ -594,6 +659,11 @@ pub fn run<KD: Kind, const N: usize>(case: &Case, cx: &mut Ctx) {
         tl::fuse_arm(-1);
     }
     let mut e = MapEng::<KD, N>::new(cx, case);
+    if N > 17 {
+        // large capacities: a 40-op history cannot get near the 32- / 64-entry marks, so the
+        // case starts from a generated fill level (full, nearly full, or anywhere)
+        e.prefill(case.cap2, case.mode);
+    }
     for (i, op) in case.ops.iter().enumerate() {
         e.cx.step = i;
         if let Err(payload) = std::panic::catch_unwind(std::panic::AssertUnwindSafe(|| e.step(*op))) {
@@ -619,8 +689,8 @@ pub fn run_dyn(case: &Case, cx: &mut Ctx) {
     use mmv_base::kinds::{Large, NoDrop, Plain, Str, Tracked, ZstBoth, ZstKey, ZstVal};
     let n = mmv_base::capacity_of(case);
     match case.kind % mmv_base::case::NKINDS {
-        0 => mmv_base::by_cap!(run, Tracked, n, case, cx, [0, 1, 2, 3, 4, 6, 9, 17]),
-        1 => mmv_base::by_cap!(run, Plain, n, case, cx, [0, 1, 2, 3, 4, 6, 9, 17]),
+        0 => mmv_base::by_cap!(run, Tracked, n, case, cx, [0, 1, 2, 3, 4, 6, 9, 17, 33, 70]),
+        1 => mmv_base::by_cap!(run, Plain, n, case, cx, [0, 1, 2, 3, 4, 6, 9, 17, 33, 70]),
         2 => mmv_base::by_cap!(run, Str, n, case, cx, [0, 1, 2, 3, 4, 6]),
         3 => mmv_base::by_cap!(run, Large, n, case, cx, [0, 1, 2, 4]),
         4 => mmv_base::by_cap!(run, ZstKey, n, case, cx, [0, 1]),
